@@ -1,8 +1,18 @@
 /-
 C13 — stype encoders are per-cell functions with documented missing-value semantics.
-Property theorems only (helper lemmas: TFVerif/Proofs/Encoder.lean).
+Property theorems only (helper lemmas: TFVerif/Proofs/Encoder.lean, TFVerif/Proofs/EncoderCell.lean).
+
+Every theorem is for an arbitrary batch size, column count, channel count, arbitrary parameter values and an
+arbitrary scalar record `S : SOps R` (the missing-value theorems use its NaN-lifting `S.lift : SOps (Option R)`,
+`none` = NaN).  `cell x r c : Option _` is entry `[r, c]` of a `[B][C]` tensor (`none` = index out of range).
+The batched definitions (`linearEncode`, …, `forward`) are written in the shape of the code: whole-tensor
+broadcast / einsum / column-loop-and-stack passes; the `cell*` functions are the per-cell specification.
+
+"Encoding never modifies the tensors it is given" is not expressible in the functional model; it is checked on
+the real objects by the harness (snapshot of every tensor / ragged storage before and after each call).
 -/
-import TFVerif.Proofs.Encoder
+import TFVerif.Proofs.EncoderCell
+import TFVerif.Gen.Encoder
 
 namespace TFVerif.C13
 open TFVerif TFVerif.Enc
@@ -10,9 +20,10 @@ open TFVerif TFVerif.Enc
 variable {R : Type} (S : SOps R)
 
 /-! ### per_cell: entry `[r, c]` of the batched `encode_forward` is a function of the cell `feat[r, c]`, the
-    encoder's parameters of column `c` and that column's statistics — for every batch size, column count,
-    channel count and parameter value (an entry is `none` exactly when the index is out of range) -/
+    encoder's parameters of column `c` and that column's statistics — nothing else (an entry is `none` exactly
+    when an index is out of range) -/
 
+/-- `LinearEncoder`: `((x − mean_c) / std_c) · weight_c + bias_c` -/
 theorem per_cell_linear (n : Norm R) (w b : Mat R) (feat : Mat R) (r c : Nat) :
     cell (linearEncode S n w b feat) r c =
       (cell feat r c).bind fun x => (n.mean[c]?).bind fun m => (n.std[c]?).bind fun s =>
@@ -21,5 +32,324 @@ theorem per_cell_linear (n : Norm R) (w b : Mat R) (feat : Mat R) (r c : Nat) :
 
 example : cell (linearEncode toy ⟨[1, 2], [2, 3]⟩ [[10, 20], [30, 40]] [[1, 1], [2, 2]] [[5, 7], [8, 9]]) 1 0
     = some (cellLinear toy 1 2 [10, 20] [1, 1] 8) ∧ cellLinear toy 1 2 [10, 20] [1, 1] 8 = [31, 61] := by decide
+
+/-- `StackEncoder`: the normalised value repeated `out_channels` times -/
+theorem per_cell_stack (n : Norm R) (ch : Nat) (feat : Mat R) (r c : Nat) :
+    cell (stackEncode S n ch feat) r c =
+      (cell feat r c).bind fun x => (n.mean[c]?).bind fun m => (n.std[c]?).map fun s => cellStack S m s ch x :=
+  stack_per_cell S n ch feat r c
+
+example : cell (stackEncode toy ⟨[1, 2], [2, 3]⟩ 3 [[5, 7], [9, 11]]) 1 1 = some (cellStack toy 2 3 3 11) ∧
+    cellStack toy 2 3 3 11 = [3, 3, 3] := by decide
+
+/-- `LinearBucketEncoder` (piecewise-linear encoding over the column's own quantile boundaries, then the
+    column's own linear layer); `C` is `feat.shape[1]`, the range of the code's column loop -/
+theorem per_cell_linear_bucket (q : Mat R) (w : T3 R) (b : Mat R) (ch C : Nat) (feat : Mat R) (r c : Nat) (x : R)
+    (hx : cell feat r c = some x) (hc : c < C) :
+    cell (bucketEncode S q w b ch C feat) r c =
+      (w[c]?).bind fun W => (b[c]?).map fun bc => cellBucket S (q.getD c []) W bc ch x := by
+  obtain ⟨row, hr, hx'⟩ := cell_some_split hx
+  exact bucket_per_cell S q w b ch C feat r c row x hr hx' hc
+
+example : cell (bucketEncode toy [[0, 2, 4, 6, 8], [0, 10, 20, 30, 40]] [[[1], [1], [1], [1]], [[1], [2], [3], [4]]]
+      [[0], [100]] 1 2 [[3, 25], [7, 5]]) 0 1
+    = some (cellBucket toy [0, 10, 20, 30, 40] [[1], [2], [3], [4]] [100] 1 25) ∧
+    bucketRow toy [0, 10, 20, 30, 40] 25 = [1, 1, 0, 0] ∧
+    cellBucket toy [0, 10, 20, 30, 40] [[1], [2], [3], [4]] [100] 1 25 = [103] := by decide
+
+/-- `LinearPeriodicEncoder` -/
+theorem per_cell_linear_periodic (n : Norm R) (li : Mat R) (lo : T3 R) (ch : Nat) (feat : Mat R) (r c : Nat) :
+    cell (periodicEncode S n li lo ch feat) r c =
+      (cell feat r c).bind fun x => (n.mean[c]?).bind fun m => (n.std[c]?).bind fun s =>
+        (li[c]?).bind fun l => (lo[c]?).map fun W => cellPeriodic S m s l W ch x :=
+  periodic_per_cell S n li lo ch feat r c
+
+example : cell (periodicEncode toy ⟨[0, 1], [1, 1]⟩ [[1], [2]] [[[1, 0], [0, 1]], [[1, 1], [2, 2]]] 2 [[1, 2], [3, 4]]) 1 1
+    = some (cellPeriodic toy 1 1 [2] [[1, 1], [2, 2]] 2 4) ∧
+    cellPeriodic toy 1 1 [2] [[1, 1], [2, 2]] 2 4 = [110, 110] := by decide
+
+/-- `ExcelFormerEncoder`: `tanh(W1_c·a + b1_c) ⊙ (W2_c·a + b2_c)` with `a` the normalised value -/
+theorem per_cell_excelformer (n : Norm R) (w1 w2 b1 b2 : Mat R) (feat : Mat R) (r c : Nat) :
+    cell (excelEncode S n w1 w2 b1 b2 feat) r c =
+      (cell feat r c).bind fun x => (n.mean[c]?).bind fun m => (n.std[c]?).bind fun s =>
+        (w1[c]?).bind fun u1 => (w2[c]?).bind fun u2 => (b1[c]?).bind fun v1 => (b2[c]?).map fun v2 =>
+          cellExcel S m s u1 u2 v1 v2 x :=
+  excel_per_cell S n w1 w2 b1 b2 feat r c
+
+example : cell (excelEncode toy ⟨[0], [1]⟩ [[1, 2]] [[3, 4]] [[0, 1]] [[1, 0]] [[5], [2]]) 1 0
+    = some (cellExcel toy 0 1 [1, 2] [3, 4] [0, 1] [1, 0] 2) ∧
+    cellExcel toy 0 1 [1, 2] [3, 4] [0, 1] [1, 0] 2 = [14, 40] := by decide
+
+/-- `EmbeddingEncoder` (categorical): row `offset_c + v + 1` of the shared table, row 0 for a missing cell;
+    the batch is accepted iff every index is inside the table -/
+theorem per_cell_embedding (off : List Int) (t : Mat R) (feat : Mat Int) (y : T3 R)
+    (h : embeddingEncode off t feat = some y) (r c : Nat) :
+    cell y r c = (cell feat r c).bind fun v => (off[c]?).map fun o => t.getD (embIndex o v).toNat [] :=
+  embedding_per_cell off t feat y h r c
+
+example : (embeddingEncode [0, 2] [[0, 0], [1, 1], [2, 2], [3, 3], [4, 4]] [[1, 0], [-1, 1]]).map (fun y =>
+    (cell y 0 0, cell y 0 1, cell y 1 0, cell y 1 1))
+    = some (some [2, 2], some [3, 3], some [0, 0], some [4, 4]) := by decide
+
+/-- `MultiCategoricalEmbeddingEncoder`, all three bag modes (`mode` is arbitrary): the column's own
+    `EmbeddingBag` reduces the cell's own bag -/
+theorem per_cell_multicategorical (mode : BagMode) (tables : T3 R) (ch : Nat) (feat : Mat (List Int)) (y : T3 R)
+    (h : bagEncode S mode tables ch feat = some y) (r c : Nat) (bag : List Int)
+    (hx : cell feat r c = some bag) (hc : c < tables.length) :
+    cell y r c = some (bagReduce S mode (tables.getD c []) ch bag) := by
+  obtain ⟨row, hr, hx'⟩ := cell_some_split hx
+  exact bag_per_cell S mode tables ch feat y h r c row bag hr hx' hc
+
+example : (bagEncode toy .sum [[[9], [1], [2]], [[9], [10], [20]]] 1 [[[0, 1], [1]], [[-1], []]]).map (fun y =>
+      (cell y 0 0, cell y 0 1, cell y 1 0, cell y 1 1)) = some (some [3], some [20], some [0], some [0]) ∧
+    (bagEncode toy .mean [[[9], [2], [4]]] 1 [[[0, 1]], [[-1]]]).map (fun y => (cell y 0 0, cell y 1 0))
+      = some (some [3], some [0]) ∧
+    (bagEncode toy .max [[[9], [2], [4]]] 1 [[[0, 1]], [[-1]]]).map (fun y => (cell y 0 0, cell y 1 0))
+      = some (some [4], some [0]) := by decide
+
+/-- `TimestampEncoder`: positional encoding of `year − min_year_c`, cyclic encodings of the six other calendar
+    components, the column's own linear layer, NaN for a missing timestamp -/
+theorem per_cell_timestamp (minYear maxValues : List Int) (outSize : Nat) (weight : List (T3 R)) (bias : Mat R)
+    (ch : Nat) (feat : Mat (List Int)) (y : T3 R)
+    (h : timestampEncode S minYear maxValues outSize weight bias ch feat = some y) (r c : Nat) :
+    cell y r c = (cell feat r c).bind fun ts => (minYear[c]?).bind fun my => (weight[c]?).bind fun W =>
+      (bias[c]?).map fun b => cellTimestamp S my maxValues outSize W b ch ts :=
+  timestamp_per_cell S minYear maxValues outSize weight bias ch feat y h r c
+
+example : (timestampEncode toy [2000] [12, 31] 2 [[[[1], [1]], [[1], [1]], [[1], [1]]]] [[5]] 1
+      [[[2003, 12, 0]], [[2001, 0, 0]]]).map (fun y => (cell y 0 0, cell y 1 0))
+    = some (some (cellTimestamp toy 2000 [12, 31] 2 [[[1], [1]], [[1], [1]], [[1], [1]]] [5] 1 [2003, 12, 0]),
+            some (cellTimestamp toy 2000 [12, 31] 2 [[[1], [1]], [[1], [1]], [[1], [1]]] [5] 1 [2001, 0, 0])) ∧
+    cellTimestamp toy 2000 [12, 31] 2 [[[1], [1]], [[1], [1]], [[1], [1]]] [5] 1 [2003, 12, 0] ≠
+    cellTimestamp toy 2000 [12, 31] 2 [[[1], [1]], [[1], [1]], [[1], [1]]] [5] 1 [2001, 0, 0] := by decide
+
+/-- `LinearEmbeddingEncoder`: the column's slice `[start_c, start_c + dim_c)` of the row's flat storage through
+    the column's own weight matrix and bias -/
+theorem per_cell_linear_embedding (dims : List Nat) (weights : T3 R) (biases : Mat R) (ch : Nat) (values : Mat R)
+    (y : T3 R) (h : linearEmbEncode S dims weights biases ch values = some y) (r c : Nat) (row : List R)
+    (hr : values[r]? = some row) (hc : c < dims.length) :
+    cell y r c = (biases[c]?).map fun bc =>
+      cellLinearEmb S (weights.getD c []) bc ch ((row.drop ((embStarts dims).getD c 0)).take (dims.getD c 0)) :=
+  linearEmb_per_cell S dims weights biases ch values y h r c row hr hc
+
+example : (linearEmbEncode toy [2, 1] [[[1], [10]], [[7]]] [[0], [1]] 1 [[1, 2, 3], [4, 5, 6]]).map (fun y =>
+    (cell y 0 0, cell y 0 1, cell y 1 0, cell y 1 1)) = some (some [21], some [22], some [54], some [43]) := by decide
+
+/-- the whole `StypeEncoder.forward` (na_forward → encode_forward → nan_to_num → post module) of any of the nine
+    encoders computes in entry `[r, c]` the per-cell function `cellForward` of cell `(r, c)`: impute with
+    `fill_values[c]`, encode with column `c`'s parameters, `nan_to_num`, post module on that vector -/
+theorem per_cell_forward (e : Encoder R) (B C n : Nat) (feat : Feat R) (o : Out R) (r c : Nat) (v : CellVal R)
+    (hfill : Fill.WF e.fill C) (h : forward S e B C n feat = some o) (hc : c < C)
+    (hv : cellAt e.params feat r c = some v) : cell o.data r c = cellForward S e c v :=
+  forward_per_cell S e B C n feat o r c v hfill h hc hv
+
+def exStats : List (ColStat Int) := [.num 1 2 [0, 1, 2, 3, 4], .num 0 1 [0, 0, 0, 0, 0]]
+def exEnc : Option (Encoder Int) :=
+  initModules toy .numerical (some .mean) exStats 2 (.linear [[1, 2], [3, 4]] [[0, 0], [1, 1]]) .relu
+def exFeat : Feat Int := .num [[1, 2], [3, 4], [5, 6]]
+
+example : ∃ e o, exEnc = some e ∧ forward toy e 3 2 2 exFeat = some o ∧
+    cell o.data 2 1 = cellForward toy e 1 (.num 6) ∧ cellForward toy e 1 (.num 6) = some [10, 13] :=
+  ⟨_, _, rfl, rfl, rfl, rfl⟩
+
+/-! ### corollaries: locality and row equivariance -/
+
+/-- `perturb_one_cell_local`: two frames of the same shape that agree in every cell except possibly `(r0, c0)`
+    (and are both accepted) have the same embedding in every entry except possibly `(r0, c0)` -/
+theorem perturb_one_cell_local (e : Encoder R) (B C n : Nat) (feat feat' : Feat R) (o o' : Out R) (r0 c0 : Nat)
+    (he : Encoder.WF e C) (hf : Feat.WF feat B C)
+    (h : forward S e B C n feat = some o) (h' : forward S e B C n feat' = some o')
+    (hagree : ∀ r c, (r, c) ≠ (r0, c0) → cellAt e.params feat' r c = cellAt e.params feat r c) :
+    ∀ r c, r < B → c < C → (r, c) ≠ (r0, c0) → cell o'.data r c = cell o.data r c :=
+  perturb_one_cell S e B C n feat feat' o o' r0 c0 he hf h h' hagree
+
+example : ∃ e o o', exEnc = some e ∧ forward toy e 3 2 2 exFeat = some o ∧
+    forward toy e 3 2 2 (.num [[1, 2], [3, 99], [5, 6]]) = some o' ∧
+    cell o'.data 1 1 ≠ cell o.data 1 1 ∧
+    (List.range 3).all (fun r => (List.range 2).all fun c => (r, c) == (1, 1) || cell o'.data r c == cell o.data r c) :=
+  ⟨_, _, _, rfl, rfl, rfl, by decide, by decide⟩
+
+/-- `row_perm_equivariant`: for every row index list `idx` (any permutation of the rows, but also repetitions
+    and the empty batch) the encoding of `tf[idx]` is `encoding(tf)[idx]`, as whole tensors -/
+theorem row_perm_equivariant (e : Encoder R) (B C n : Nat) (feat : Feat R) (o : Out R) (idx : List Nat)
+    (he : Encoder.WF e C) (hf : Feat.WF feat B C) (hidx : ∀ i ∈ idx, i < B)
+    (h : forward S e B C n feat = some o) :
+    ∃ o', forward S e idx.length C n (feat.selectRows idx) = some o' ∧ o'.data = selectRows idx o.data :=
+  forward_selectRows S e B C n feat o idx he hf hidx h
+
+example : ∃ e o o', exEnc = some e ∧ forward toy e 3 2 2 exFeat = some o ∧
+    forward toy e 3 2 2 (exFeat.selectRows [2, 0, 1]) = some o' ∧ o'.data = selectRows [2, 0, 1] o.data ∧
+    o'.data ≠ o.data :=
+  ⟨_, _, _, rfl, rfl, rfl, by decide, by decide⟩
+
+/-! ### missing cells without NA strategy -/
+
+/-- the post module acts last and on each `[channels]` vector separately: "before any post-module" is the
+    output of the same encoder with `post_module=None` -/
+theorem post_module_applied_last (e : Encoder R) (B C n : Nat) (feat : Feat R) (o : Out R)
+    (h : forward S e B C n feat = some o) :
+    ∃ o0, forward S { e with post := .none } B C n feat = some o0 ∧
+      o.data = map2 (Post.apply S e.post) o0.data :=
+  forward_post_last S e B C n feat o h
+
+example : ∃ e o, exEnc = some e ∧ forward toy e 3 2 2 exFeat = some o ∧
+    (forward toy { e with post := .none } 3 2 2 exFeat).map (fun o0 => map2 (Post.apply toy e.post) o0.data)
+      = some o.data := ⟨_, _, rfl, rfl, by decide⟩
+
+/-- `missing_is_zero`: over the NaN-lifted scalar, an encoder without NA strategy (`fill = none`) and without
+    post module embeds a missing cell `(r, c)` — NaN, category −1, the bag `[-1]`, a timestamp with a negative
+    component, an embedding with a NaN component — as the all-zero vector, whatever the parameters and the
+    other cells are.  Mechanism: NaN propagates through every arithmetic pass of `encode_forward` (for
+    `LinearBucketEncoder`: `bucketize(NaN)` is the last bucket, whose `frac` is NaN), `nan_to_num` turns the
+    all-NaN vector into zeros; a missing timestamp is masked to NaN; index −1+1 = 0 is the padding row of
+    `Embedding` / the excluded `padding_idx` of `EmbeddingBag`.
+    Explicit hypotheses `MissingHyp` (column `c`): row 0 of the `EmbeddingEncoder` table is zero (`padding_idx=0`;
+    the harness checks it on every exported table); the bucket column has ≥ 2 boundaries and one weight row per
+    bucket; `weight_list[c]` has `emb_dim_list[c]` rows. -/
+theorem missing_is_zero (e : Encoder (Option R)) (B C n : Nat) (feat : Feat (Option R)) (o : Out (Option R))
+    (r c : Nat) (v : CellVal (Option R))
+    (he : Encoder.WF e C) (hf : Feat.WF feat B C) (hfill : e.fill = none) (hpost : e.post = .none)
+    (h : forward S.lift e B C n feat = some o) (hr : r < B) (hc : c < C)
+    (hv : cellAt e.params feat r c = some v) (hm : CellVal.Missing v) (hyp : MissingHyp S e.params c) :
+    cell o.data r c = some (List.replicate e.ch (some S.zero)) :=
+  forward_missing_zero S e B C n feat o r c v he hf hfill hpost h hr hc hv hm hyp
+
+/-- all nine encoders on a frame with one missing and one present cell: the missing one is `[0, 0]`, the present
+    one is not -/
+def exMissing : List (Encoder (Option Int) × Feat (Option Int)) :=
+  [(⟨2, none, .linear ⟨[some 1], [some 2]⟩ [[some 1, some 2]] [[some 3, some 4]], .none⟩, .num [[none], [some 7]]),
+   (⟨2, none, .stack ⟨[some 1], [some 2]⟩, .none⟩, .num [[none], [some 7]]),
+   (⟨2, none, .bucket [[some 0, some 2, some 4]] [[[some 1, some 1], [some 2, some 2]]] [[some 3, some 4]], .none⟩,
+      .num [[none], [some 3]]),
+   (⟨2, none, .periodic ⟨[some 1], [some 2]⟩ [[some 1]] [[[some 1, some 2], [some 3, some 4]]], .none⟩,
+      .num [[none], [some 7]]),
+   (⟨2, none, .excel ⟨[some 1], [some 2]⟩ [[some 1, some 2]] [[some 1, some 1]] [[some 0, some 0]] [[some 1, some 1]],
+      .none⟩, .num [[none], [some 7]]),
+   (⟨2, none, .embedding [0] [[some 0, some 0], [some 5, some 6]], .none⟩, .cat [[-1], [0]]),
+   (⟨2, none, .bag .mean [[[some 9, some 9], [some 5, some 6]]], .none⟩, .bags [[[-1]], [[0]]]),
+   (⟨2, none, .timestamp [2000] [12] 2 [[[[some 1, some 2], [some 1, some 1]], [[some 1, some 1], [some 1, some 1]]]]
+      [[some 1, some 1]], .none⟩, .time [[[-1, -1]], [[2001, 3]]]),
+   (⟨2, none, .linearEmb [2] [[[some 1, some 2], [some 3, some 4]]] [[some 1, some 1]], .none⟩,
+      .emb [0, 2] [[some 1, none], [some 1, some 1]])]
+
+example : exMissing.map (fun (e, f) => (forward toy.lift e 2 1 1 f).map fun o =>
+      (cell o.data 0 0 == some [some 0, some 0], cell o.data 1 0 == some [some 0, some 0])) =
+    List.replicate 9 (some (true, false)) := by decide
+
+/-- the padding-row hypothesis is needed: a table whose row 0 is not zero embeds the missing cell as that row -/
+example : (forward toy.lift ⟨2, none, .embedding [0] [[some 7, some 8], [some 5, some 6]], .none⟩ 1 1 1
+    (.cat [[-1]])).map (fun o => cell o.data 0 0) = some (some [some 7, some 8]) := by decide
+
+/-! ### missing cells with an NA strategy -/
+
+/-- `strategy_is_imputation`: for an encoder built by `init_modules` with strategy `na`,
+    (1) `na_forward` accepts the frame, producing `f1`;
+    (2) encoding with the strategy IS encoding `f1` with the same encoder without strategy;
+    (3) `f1` is, cell by cell, the input with the documented substitution: cell `(r, c)` is replaced — only if
+        it is missing — by `docFill st na stats[c]`, the value computed from **column `c`'s own** statistics
+        (its mean; zero; category 0 = its most frequent category; its oldest / newest / median timestamp). -/
+theorem strategy_is_imputation (st : Stype) (na : NA) (stats : List (ColStat R)) (ch : Nat) (w : Weights R)
+    (post : Post R) (e : Encoder R) (B C n : Nat) (feat : Feat R) (o : Out R)
+    (hinit : initModules S st (some na) stats ch w post = some e)
+    (h : forward S e B C n feat = some o) :
+    ∃ f1, naForward S e.fill feat = some f1 ∧
+      forward S { e with fill := none } B C n f1 = some o ∧
+      ∀ r c, cellAt e.params f1 r c = (cellAt e.params feat r c).bind fun v =>
+        (stats[c]?).bind fun s => (docFill S st na s).bind fun f => substitute S f v :=
+  forward_is_imputation S st na stats ch w post e B C n feat o hinit h
+
+/-- column 0 has mean 1, column 1 has mean 0: each missing cell gets its own column's mean -/
+example : ∃ e o, initModules toy.lift .numerical (some .mean)
+      [.num (some 1) (some 2) [], .num (some 0) (some 1) []] 1 (.linear [[some 1], [some 1]] [[some 0], [some 0]]) .none
+      = some e ∧
+    forward toy.lift e 2 2 2 (.num [[none, some 5], [some 3, none]]) = some o ∧
+    naForward toy.lift e.fill (.num [[none, some 5], [some 3, none]]) = some (.num [[some 1, some 5], [some 3, some 0]]) ∧
+    forward toy.lift { e with fill := none } 2 2 2 (.num [[some 1, some 5], [some 3, some 0]]) = some o :=
+  ⟨_, _, rfl, rfl, rfl, rfl⟩
+
+/-- the substitution replaces exactly the missing representations and nothing else -/
+theorem imputation_replaces_exactly_missing (f x : R) (k i : Int) (b ts ft : List Int) :
+    substitute S (.num f) (.num x) = some (.num (if S.isNaN x then f else x)) ∧
+    substitute S (.int k) (.cat (-1)) = some (.cat k) ∧
+    (i ≠ -1 → substitute S (.int k) (.cat i) = some (.cat i)) ∧
+    substitute S (.int k) (.bag [-1]) = some (.bag [k]) ∧
+    (-1 ∉ b → substitute S (.int k) (.bag b) = some (.bag b)) ∧
+    (-1 ∈ ts → substitute S (.time ft) (.time ts) = some (.time ft)) ∧
+    (-1 ∉ ts → substitute S (.time ft) (.time ts) = some (.time ts)) := by
+  refine ⟨rfl, rfl, ?_, rfl, ?_, ?_, ?_⟩
+  · intro hi; simp [substitute, hi]
+  · intro hb
+    have : (b.map fun t => if t == -1 then k else t) = b := by
+      conv => rhs; rw [← List.map_id b]
+      apply List.map_congr_left
+      intro t ht
+      have : t ≠ -1 := fun h => hb (h ▸ ht)
+      simp [this]
+    simp only [substitute]
+    rw [this]
+  · intro hts
+    have : ts.any (· == -1) = true := List.any_eq_true.mpr ⟨-1, hts, by simp⟩
+    simp [substitute, this]
+  · intro hts
+    have : ts.any (· == -1) = false := by
+      rw [List.any_eq_false]
+      intro t ht
+      have : t ≠ -1 := fun h => hts (h ▸ ht)
+      simp [this]
+    simp [substitute, this]
+
+example : substitute toy.lift (.num (some 4)) (.num none) = some (.num (some 4)) ∧
+    substitute toy.lift (.num (some 4)) (.num (some 9)) = some (.num (some 9)) ∧
+    substitute toy (.int 0) (.bag [2, 0]) = some (.bag [2, 0]) ∧
+    substitute toy (.time [1999, 0]) (.time [-1, -1]) = some (.time [1999, 0]) := ⟨rfl, rfl, rfl, rfl⟩
+
+/-! ### strategy / stype combinations -/
+
+/-- the admissibility table evaluated from the live code over its whole domain (10 classes × 9 stypes × 7
+    strategies, construction accepted or raised) equals the model's -/
+theorem gen_eq_model_naOk : Gen.Encoder.directAccepted = directAccepted.map tripleCode ∧
+    Gen.Encoder.classNames = EncClass.all.map EncClass.name ∧ Gen.Encoder.stypeNames = Stype.all.map Stype.name ∧
+    Gen.Encoder.naNames = NA.all.map NA.name := by decide
+
+/-- `bad_combinations_rejected` (complete finite table): of all 9 × 9 × 7 (class, stype, strategy) triples of the
+    nine parameterised encoder classes exactly these 24 are accepted — numerical: none / mean / zeros;
+    categorical: none / most-frequent; multicategorical: none / zeros; timestamp: none / oldest / newest / median;
+    embedding: none.  Everything else (mean on categories, most-frequent on numbers, a time strategy on anything
+    but timestamps, any strategy on embeddings, any unsupported stype) is rejected at construction. -/
+theorem bad_combinations_rejected :
+    directAccepted.filter (fun t => t.1 != .linearModel) =
+      [(.embedding, .categorical, none), (.embedding, .categorical, some .mostFrequent),
+       (.multiCategorical, .multicategorical, none), (.multiCategorical, .multicategorical, some .zeros),
+       (.linear, .numerical, none), (.linear, .numerical, some .mean), (.linear, .numerical, some .zeros),
+       (.stack, .numerical, none), (.stack, .numerical, some .mean), (.stack, .numerical, some .zeros),
+       (.linearBucket, .numerical, none), (.linearBucket, .numerical, some .mean), (.linearBucket, .numerical, some .zeros),
+       (.linearPeriodic, .numerical, none), (.linearPeriodic, .numerical, some .mean),
+       (.linearPeriodic, .numerical, some .zeros),
+       (.excelFormer, .numerical, none), (.excelFormer, .numerical, some .mean), (.excelFormer, .numerical, some .zeros),
+       (.linearEmbedding, .embedding, none),
+       (.timestamp, .timestamp, none), (.timestamp, .timestamp, some .oldest), (.timestamp, .timestamp, some .newest),
+       (.timestamp, .timestamp, some .median)] ∧
+    (∀ c ∈ EncClass.all, c ≠ .linearModel → ∀ s ∈ supported c, ∀ na ∈ NA.all, naOk s (some na) = naValid s na) := by
+  decide
+
+example : (EncClass.linear, Stype.numerical, some NA.mean) ∈ directAccepted ∧
+    (EncClass.linear, Stype.numerical, some NA.mostFrequent) ∉ directAccepted ∧
+    (EncClass.embedding, Stype.categorical, some NA.mean) ∉ directAccepted ∧
+    (EncClass.timestamp, Stype.timestamp, some NA.zeros) ∉ directAccepted ∧
+    (EncClass.linearEmbedding, Stype.embedding, some NA.zeros) ∉ directAccepted := by decide
+
+/-- the table is what construction does: a strategy the table rejects for the encoder's stype makes
+    `init_modules` raise, whatever the statistics, the channel count and the parameters -/
+theorem rejected_at_construction (c : EncClass) (st : Stype) (na : NA) (stats : List (ColStat R)) (ch : Nat)
+    (w : Weights R) (post : Post R) (hc : c ≠ .linearModel) (hs : st ∈ supported c)
+    (hbad : naOk st (some na) = false) : initModules S st (some na) stats ch w post = none := by
+  have hmem : c ∈ EncClass.all := by cases c <;> decide
+  have hna : na ∈ NA.all := by cases na <;> decide
+  have := bad_combinations_rejected.2 c hmem hc st hs na hna
+  exact initModules_rejects S st na stats ch w post (this ▸ hbad)
+
+example : initModules toy .numerical (some .mostFrequent) exStats 2 (.linear [[1, 2], [3, 4]] [[0, 0], [1, 1]]) .relu = none ∧
+    (initModules toy .numerical (some .zeros) exStats 2 (.linear [[1, 2], [3, 4]] [[0, 0], [1, 1]]) .relu).isSome := by
+  decide
 
 end TFVerif.C13
